@@ -196,6 +196,7 @@ VERDICT_TEXT = {
 def replay(ctx):
     """bin/check Cxx --replay file: rebuild the recorded input, run the implementation again, evaluate model and spec."""
     import c11, c12, c13
+    ctx.add_obligations(vcheck.coq_props("Table", ctx.prop))      # a replay re-checks the theorems too
     items = {"sort": c12.sort_item, "limit": c12.limit_item, "e2e12": c12.e2e_item, "reduce": c11.reduce_item,
              "e2e11": c11.e2e_item, "expr": c13.expr_item, "e2e13": c13.e2e_item, "e2etail": c13.tail_item}
     rows = htable(["-mode", "rerun", "-file", ctx.replay])
